@@ -255,13 +255,6 @@ impl P {
             _ => false,
         }
     }
-    pub fn size(&self) -> usize {
-        match self {
-            P::Not(p) => 1 + p.size(),
-            P::And(a, b) | P::Or(a, b) => 1 + a.size() + b.size(),
-            _ => 1,
-        }
-    }
     /// Three-valued truth of the predicate on one row.
     pub fn eval(&self, r: &Row) -> Option<bool> {
         match self {
@@ -354,10 +347,15 @@ impl P {
     }
 }
 
-/// Value domain of each column (index into [`COLS`]).
-pub fn domain(c: usize) -> Vec<V> {
+/// Value domain of each column (index into [`COLS`]). `variant` 1 swaps the
+/// string domain for one around the largest code point (where "the next string
+/// after this prefix" cannot be formed by incrementing the last character).
+pub fn domain(c: usize, variant: u8) -> Vec<V> {
     match c {
         0 => vec![V::Null, V::I(1), V::I(2), V::I(3)],
+        1 if variant == 1 => {
+            vec![V::Null, V::S("a".into()), V::S("a\u{10FFFF}".into()), V::S("a\u{10FFFF}z".into()), V::S("b".into()), V::S("\u{10FFFF}b".into())]
+        }
         1 => vec![V::Null, V::S("a".into()), V::S("ab".into()), V::S("b".into())],
         2 => vec![V::Null, V::I(1), V::I(2)],
         _ => vec![V::Null, V::B(false), V::B(true)],
@@ -365,12 +363,12 @@ pub fn domain(c: usize) -> Vec<V> {
 }
 
 /// All rows over the given columns (other columns NULL), in canonical order.
-pub fn rows_over(cols: &[usize]) -> Vec<Row> {
+pub fn rows_over(cols: &[usize], variant: u8) -> Vec<Row> {
     let mut out: Vec<Row> = vec![[V::Null, V::Null, V::Null, V::Null]];
     for &c in cols {
         let mut next = vec![];
         for r in &out {
-            for v in domain(c) {
+            for v in domain(c, variant) {
                 let mut r2 = r.clone();
                 r2[c] = v;
                 next.push(r2);
@@ -520,5 +518,24 @@ pub fn atoms(core: bool) -> Vec<P> {
         P::Term(T::Bool(Some(false))),
         P::Term(T::Bool(None)),
     ]);
+    v
+}
+
+/// Atoms for the string domain of variant 1 (column `s` only).
+pub fn unicode_atoms() -> Vec<P> {
+    let s = || T::Col(1);
+    let st = |v: &str| T::Str(Some(v.to_string()));
+    let mut v = vec![];
+    for pat in ["a\u{10FFFF}%", "\u{10FFFF}%", "a%", "a\u{10FFFF}_", "\u{10FFFF}b", "a\u{10FFFF}z%"] {
+        v.push(P::Like(s(), pat.to_string(), false));
+        v.push(P::Like(s(), pat.to_string(), true));
+    }
+    for op in ["=", "<>", "<", "<=", ">", ">="] {
+        for k in ["a\u{10FFFF}", "b", "\u{10FFFF}b"] {
+            v.push(P::Cmp(s(), op.to_string(), st(k)));
+        }
+    }
+    v.push(P::In(s(), vec![st("a\u{10FFFF}"), st("b")], false));
+    v.push(P::In(s(), vec![st("a\u{10FFFF}"), st("b")], true));
     v
 }
